@@ -371,6 +371,20 @@ func (e *nodeEngine) requests() (string, bool) {
 	return strings.Join(parts, " "), all
 }
 
+// diag renders every survivor's routing table (for oracle failure details).
+func (e *nodeEngine) diag() string {
+	var parts []string
+	for _, s := range e.survivors() {
+		var rows []string
+		for _, n := range s.srv.ClusterState().Nodes() {
+			rows = append(rows, fmt.Sprintf("%s/%s%s", n.ID, n.Status, ShowCounts(n.Endpoints)))
+		}
+		sort.Strings(rows)
+		parts = append(parts, s.id+"{"+strings.Join(rows, " ")+"}")
+	}
+	return strings.Join(parts, " ")
+}
+
 func (e *nodeEngine) statusAt(obs *nd, id string) string {
 	n, ok := obs.srv.ClusterState().Node(id)
 	if !ok {
@@ -443,7 +457,7 @@ func (e *nodeEngine) recover(lost *nd, wantStatus string, o *Out) string {
 		return all
 	})
 	if !okReq {
-		o.Fail("C18", "no-recovery", "requests after the settle bound: "+res)
+		o.Fail("C18", "no-recovery", "requests after the settle bound: "+res+" tables: "+e.diag())
 	}
 	o.Add("recover-ms", int(time.Since(t0).Milliseconds()))
 	return "seen=" + e.seen(lost) + " total=" + ShowCounts(e.total()) + " recovered=" + B01(okReg && okStatus && okReq)
@@ -544,7 +558,7 @@ func (e *nodeEngine) step(ws []string, o *Out) string {
 			return all
 		})
 		if !ok {
-			o.Fail("C18", "requests-fail", res)
+			o.Fail("C18", "requests-fail", res+" tables: "+e.diag())
 		}
 		return "ok " + res
 	case "shutdown":
@@ -564,22 +578,22 @@ func (e *nodeEngine) step(ws []string, o *Out) string {
 			}
 			time.Sleep(30 * time.Millisecond)
 		}
-		// watch the node's own gossip state: the instant the left marker is visible, is the
-		// upstream port still accepting?  (Server.Shutdown closes the upstream listener and
-		// cancels the handlers synchronously before Leave.)
-		upAddr := n.srv.Config().Upstream.AdvertiseAddr
+		// watch the node's own gossip state: the instant the left marker is visible, has the
+		// upstream server been shut down (its handlers' context cancelled)?  Server.Shutdown does
+		// that synchronously before Leave.
+		ups := server.VUpstreamServer(n.srv)
 		g := server.VGossiper(n.srv)
 		atLeave := make(chan string, 1)
 		stopWatch := make(chan struct{})
 		go func() {
 			for {
 				if st, ok := g.NodeState(n.id); ok && st.Left {
-					c, err := net.DialTimeout("tcp", upAddr, 200*time.Millisecond)
-					if err == nil {
-						_ = c.Close()
-						atLeave <- "open"
-					} else {
+					// (a TCP probe of the port is not reliable: a freed ephemeral port is reused by
+					// the other nodes on this box)
+					if upstream.VSessionCancelled(ups) {
 						atLeave <- "closed"
+					} else {
+						atLeave <- "open"
 					}
 					return
 				}
@@ -611,6 +625,11 @@ func (e *nodeEngine) step(ws []string, o *Out) string {
 				believed = append(believed, s)
 			}
 		}
+		// the balancer stops sending new connections to the node (its freed ports may be reused
+		// by other processes on this box)
+		e.lb.mu.Lock()
+		e.lb.alive[i] = false
+		e.lb.mu.Unlock()
 		t0 := time.Now()
 		done := make(chan struct{})
 		go func() { n.srv.Shutdown(); close(done) }()
@@ -661,12 +680,9 @@ func (e *nodeEngine) step(ws []string, o *Out) string {
 			upAtLeave = <-atLeave
 		}
 		if upAtLeave != "closed" {
-			o.Fail("C18", "upstream-port-"+upAtLeave+"-at-leave", n.id+": the left marker was written while the upstream server had not been shut down")
+			o.Fail("C18", "upstream-"+upAtLeave+"-at-leave", n.id+": the left marker was written while the upstream server had not been shut down")
 		}
 		e.leaveOrder(n, o)
-		e.lb.mu.Lock()
-		e.lb.alive[i] = false // a health check would drop it; dialing it fails anyway
-		e.lb.mu.Unlock()
 		return "ok lost=" + n.id + " upstream-at-leave=" + upAtLeave + " notified=" + notifiedStr + " " + e.recover(n, string(cluster.NodeStatusLeft), o)
 	case "kill":
 		if len(ws) != 2 {
